@@ -106,7 +106,7 @@ func factsC04(r *Repo) []Fact {
 		}
 	}
 	out = append(out, boolFact("adaptorNamesMatch", okAd, "every derived form uses the adaptor named <target>By<Source>"))
-	out = append(out, factEmptyStream(cp), factDagGetEmptyStream(cp), factStreamFilterNilSafe(cp), factFieldCheckerPresentOnly(cp))
+	out = append(out, factEmptyStream(cp), factDagGetEmptyStream(cp), factStreamFilterNilSafe(cp), factFieldCheckerPresentOnly(cp), factEOFByIdentity(cp))
 	return out
 }
 
@@ -328,4 +328,55 @@ func factFieldCheckerPresentOnly(cp *Pkg) Fact {
 		w = "compose/" + file + " validateFieldMapping: " + detail
 	}
 	return boolFact(name, guarded == calls, w)
+}
+
+// The end of a stream is the bare io.EOF; an error item may wrap io.EOF. Every mention of io.EOF in
+// package compose (non-test, non-verif files) must therefore be an identity comparison
+// `<x> == io.EOF` / `<x> != io.EOF` (or a plain value use), never an argument of errors.Is / errors.As;
+// and concatStreamReader - the Recv loop behind every derived paradigm - must contain such a comparison.
+func factEOFByIdentity(cp *Pkg) Fact {
+	name := "composeEOFComparedByIdentity"
+	fd, file := cp.Func("", "concatStreamReader")
+	if fd == nil || fd.Body == nil {
+		return unknownFact(name, "Bool", "false", "compose/stream_concat.go", "concatStreamReader not found")
+	}
+	isEOF := func(e ast.Expr) bool { return exprString(e) == "io.EOF" }
+	identityIn := func(n ast.Node) int {
+		k := 0
+		ast.Inspect(n, func(x ast.Node) bool {
+			if be, ok := x.(*ast.BinaryExpr); ok && (be.Op == token.EQL || be.Op == token.NEQ) && (isEOF(be.X) || isEOF(be.Y)) {
+				k++
+			}
+			return true
+		})
+		return k
+	}
+	if identityIn(fd.Body) == 0 {
+		return boolFact(name, false, "compose/"+file+" concatStreamReader has no `== io.EOF` comparison")
+	}
+	bad := ""
+	for _, f := range cp.Funcs() {
+		if f.Decl.Body == nil {
+			continue
+		}
+		ast.Inspect(f.Decl.Body, func(x ast.Node) bool {
+			call, ok := x.(*ast.CallExpr)
+			if !ok {
+				return true
+			}
+			fn := exprString(call.Fun)
+			if fn == "errors.Is" || fn == "errors.As" {
+				for _, a := range call.Args {
+					if isEOF(a) {
+						bad = "compose/" + f.File + " " + f.Decl.Name.Name + " calls " + fn + "(…, io.EOF): an error item wrapping io.EOF would end the stream"
+					}
+				}
+			}
+			return true
+		})
+	}
+	if bad != "" {
+		return boolFact(name, false, bad)
+	}
+	return boolFact(name, true, "compose/"+file+" concatStreamReader ends on `== io.EOF`; no errors.Is/As(…, io.EOF) in package compose")
 }
